@@ -227,6 +227,8 @@ churn_case = st.fixed_dictionaries({
     'victims': st.integers(1, 2),                       # peers that never answer, opened next
     'period': st.sampled_from(['T/8', 'T/4', 'T/2', '3T/4']),   # a new peer appears this often
     'newcomer': st.sampled_from(['silent', 'silent', 'closes']),
+    # the application keeps sending to the first silent peer: a long backlog nobody reads
+    'backlog': st.sampled_from([0, 0, 0, 0, 0, 1100]),
 })
 
 
@@ -246,6 +248,12 @@ def check_churn(case, ctx=None):
             ex.do({'op': 'open', 'transport': 'polling', 'autopong': True, 'autopoll': True})
         for _ in range(case['victims']):
             ex.do({'op': 'open', 'transport': 'polling', 'autopong': False, 'autopoll': False})
+        if case.get('backlog'):
+            v = ex.sessions[case['bystanders']]
+            sid = ex.sid_of(v)
+            for k in range(case['backlog']):
+                ex.world.call('send', sid, 'backlog%d' % k)
+            ex.world.settle()
         t0 = ex.now
         n_live = case['bystanders']
         while ex.now < t0 + I + 3 * T + 2 * period:
@@ -279,7 +287,8 @@ def check_churn(case, ctx=None):
                                 late[:6]), rep)
         if ctx:
             ctx.case(rep, True, ['churn', ex.impl, 'bystanders=%d' % case['bystanders'],
-                                 'newcomers-' + case['newcomer'], 'period-' + case['period'],
+                                 'newcomers-' + case['newcomer'], 'period-' + case['period']] + (
+                ['backlog-of-1100-unread-packets'] if case.get('backlog') else []) + [
                                  'dropped>=5' if dropped >= 5 else 'dropped<5'])
     finally:
         ex.close()
